@@ -579,3 +579,154 @@ func frameBuffersLocal(p *Prog, r *Report, R string) {
 	}
 	r.Count("frame_buffers."+R, n)
 }
+
+// ---------------------------------------------------------------------------------
+// round 14: additions to a swept list are tested against the sweep
+
+// additionsTestedAgainstClose: a struct field holding a slice of things that have a Close
+// method, which some Close method of the owner empties after sweeping it (C10.18), gains an
+// entry only under a test of a flag that this Close writes — made after the lock was taken,
+// i.e. in the critical section of the append.  An entry appended after the sweep is closed
+// by nobody: the connection (and for the websocket listener the HTTP handler goroutine that
+// waits for it) stays for good.
+func additionsTestedAgainstClose(p *Prog, r *Report, R string, filter func(rel string) bool) {
+	r.Describe(R, "a queue of accepted-but-not-yet-delivered connections that the owner's Close sweeps and empties gains an entry only under a test, made in the same critical section as the append, of a flag that this Close sets: an entry queued after the sweep is never closed (the check made before the lock was released and re-taken proves nothing)")
+	n := 0
+	for _, fn := range p.Funcs {
+		rel, ok := p.FuncRel(fn)
+		if !ok || !filter(rel) || strings.HasSuffix(p.Fset.Position(fn.Pos()).Filename, "_test.go") {
+			continue
+		}
+		EachInstr(fn, func(in ssa.Instruction) {
+			st, ok := in.(*ssa.Store)
+			if !ok {
+				return
+			}
+			fa, ok := st.Addr.(*ssa.FieldAddr)
+			if !ok || !elemCloses(st.Val.Type()) {
+				return
+			}
+			if _, isSlice := st.Val.Type().Underlying().(*types.Slice); !isSlice {
+				return
+			}
+			c, isCall := st.Val.(*ssa.Call)
+			if !isCall {
+				return
+			}
+			if b, isB := c.Call.Value.(*ssa.Builtin); !isB || b.Name() != "append" {
+				return
+			}
+			// the sweeping Close of the owner: a method named Close on the same receiver type
+			// that stores an empty value into this very field
+			fv := FieldVar(fa)
+			var closer *ssa.Function
+			flags := map[string]bool{}
+			for _, g := range p.Funcs {
+				if g.Name() != "Close" || g.Signature.Recv() == nil || !types.Identical(g.Signature.Recv().Type(), fa.X.Type()) {
+					continue
+				}
+				resets := false
+				EachInstr(g, func(i2 ssa.Instruction) {
+					s2, ok := i2.(*ssa.Store)
+					if !ok {
+						return
+					}
+					f2, ok := s2.Addr.(*ssa.FieldAddr)
+					if !ok {
+						return
+					}
+					if FieldVar(f2) == fv {
+						if k, isC := s2.Val.(*ssa.Const); isC && k.Value == nil {
+							resets = true
+						}
+					}
+				})
+				if !resets {
+					continue
+				}
+				closer = g
+				EachInstr(g, func(i2 ssa.Instruction) {
+					s2, ok := i2.(*ssa.Store)
+					if !ok {
+						return
+					}
+					f2, ok := s2.Addr.(*ssa.FieldAddr)
+					if !ok {
+						return
+					}
+					if b, isB := f2.Type().(*types.Pointer).Elem().Underlying().(*types.Basic); isB && b.Kind() == types.Bool {
+						flags[fieldName(f2.X.Type(), f2.Field)] = true
+					}
+				})
+			}
+			if closer == nil {
+				return
+			}
+			n++
+			// the test: a branch on a load of one of those flags that dominates the append, the
+			// load itself coming after the last Lock call that dominates the append
+			tested := ""
+			for _, a := range p.GuardsOf(in.Block()) {
+				s := NormAtom(a.Cond, a.Pol)
+				for f := range flags {
+					if strings.HasSuffix(s, "."+f) || strings.HasSuffix(s, "."+f+" == false") || strings.HasSuffix(s, "."+f+" == true") || strings.HasPrefix(s, "!") && strings.HasSuffix(s, "."+f) {
+						if loadAfterLastUnlock(a.Cond, in) {
+							tested = s
+						}
+					}
+				}
+			}
+			var fl []string
+			for f := range flags {
+				fl = append(fl, f)
+			}
+			sort.Strings(fl)
+			r.Check(tested != "", R, p.FuncName(fn)+"/"+fieldKeyOf(fa), p.InstrPos(in), "appended under "+tested+" in the critical section of the append", "an entry is appended to "+Desc(fa)+" without a test, in the same critical section, of a flag that "+p.FuncName(closer)+" sets ("+strings.Join(fl, ", ")+"): when Close has run in between (the earlier check was made before the lock was released) the entry is queued after the sweep, no Accept will ever take it and nothing closes it — the connection and the goroutine serving it are leaked")
+		})
+	}
+	r.Count("guarded_additions."+R, n)
+}
+
+// loadAfterLastUnlock: no call of an Unlock method lies on a path between the evaluation of
+// cond and the instruction at (approximated: no Unlock call in a block that cond's block
+// dominates and that dominates at's block, nor after cond in its own block, nor before at in
+// at's block).
+func loadAfterLastUnlock(cond ssa.Value, at ssa.Instruction) bool {
+	ci, ok := cond.(ssa.Instruction)
+	if !ok {
+		return false
+	}
+	cb, ab := ci.Block(), at.Block()
+	isUnlock := func(i ssa.Instruction) bool {
+		c := CallOf(i)
+		if c == nil {
+			return false
+		}
+		if _, isDefer := i.(*ssa.Defer); isDefer {
+			return false
+		}
+		if sc := c.StaticCallee(); sc != nil && (sc.Name() == "Unlock" || sc.Name() == "RUnlock") {
+			return true
+		}
+		return false
+	}
+	for _, b := range ab.Parent().Blocks {
+		if !(cb.Dominates(b) && b.Dominates(ab)) {
+			continue
+		}
+		past := b != cb
+		for _, i := range b.Instrs {
+			if i == at && b == ab {
+				break
+			}
+			if i == ci {
+				past = true
+				continue
+			}
+			if past && isUnlock(i) {
+				return false
+			}
+		}
+	}
+	return true
+}
